@@ -157,6 +157,13 @@ def fpy_rne(v, digits):
     return fp.MPFloatContext(int(digits), fp.RM.RNE).round(Fraction(v)).as_rational()
 
 
+def fpy_rnd_mode(v, digits, mode):
+    """v rounded at `digits` significant binary digits (unbounded exponent) under the fpy2 rounding mode named `mode`
+    ('RNE', 'RNA', 'RTP', 'RTN', 'RTZ', 'RAZ', 'RTO', 'RTE'); symbolically pyvc/fpyround.py"""
+    import fpy2 as fp
+    return fp.MPFloatContext(int(digits), getattr(fp.RM, mode)).round(Fraction(v)).as_rational()
+
+
 def fpy_operand(m, e):
     return Fraction(m) * Fraction(2) ** e
 
